@@ -114,6 +114,9 @@ CHECKS = {
             {"name": "xfer", "pkg": X, "run": "^TestVerifC03",
              "quick": {"checks": 600, "shards": 8, "timeout": 900},
              "thorough": {"checks": 1500, "shards": 16, "timeout": 3000}},
+            {"name": "srv", "pkg": "./internal/verifsrv", "run": "^TestVerifC03", "binaries": ["thruserv", "thru"],
+             "quick": {"checks": 2, "shards": 3, "timeout": 900},
+             "thorough": {"checks": 10, "shards": 8, "timeout": 3400}},
         ],
     },
     "C02": {
@@ -526,3 +529,6 @@ for _id, _t in _ADDENDA.items():
     CHECKS[_id]["level_text"] = CHECKS[_id]["level_text"] + " " + _t
 CHECKS["C11"]["technique"] = CHECKS["C11"]["technique"].replace(
     "+ rapid-generated programs and schedules;", "+ rapid-generated programs and schedules + a real-concurrency stress run;")
+CHECKS["C03"]["level_text"] += (" Unit 'e2e' runs the real binaries (thruserv, `thru host`, `thru join`) as processes: a session is "
+                                "established through the signaling server and the join process must exit 0 within 60 s with exactly "
+                                "the hosted tree (the host's own verdict is not observable from outside and is not judged).")
